@@ -167,14 +167,14 @@ Section Sigma.
 
   (* ---- masking ------------------------------------------------------------------------------------------ *)
   (* BarnettSmartVTMF_dlog::MaskingValue: redraw while the value is 0 or 1; None = the coin list ran out *)
-  Fixpoint masking_value (raws : list Z) : option Z :=
+  Fixpoint vtmf_masking_value (raws : list Z) : option Z :=
     match raws with
     | [] => None
-    | raw :: rest => let v := srandomm raw q in if (v =? 0) || (v =? 1) then masking_value rest else Some v
+    | raw :: rest => let v := srandomm raw q in if (v =? 0) || (v =? 1) then vtmf_masking_value rest else Some v
     end.
 
   (* VerifiableMaskingProtocol_Mask with the masking value r already chosen: (c_1, c_2) *)
-  Definition mask (m r : Z) : option (Z * Z) :=
+  Definition vtmf_mask (m r : Z) : option (Z * Z) :=
     match fspowm tg g r p with
     | None => None
     | Some c1 => match fspowm th h r p with None => None | Some hr => Some (c1, (hr * m) mod p) end
